@@ -144,11 +144,34 @@ Print Assumptions C06_eligibility.
    accepts, previous set + updates = top set of the registry dump, no zero-power add, strictly sorted, stored set =
    consensus set, stored total = sum, stored updates = returned updates, marker cleared; and in other blocks: empty and
    unchanged) is true of the observation the model produces, for ALL inputs *)
-Theorem C06_model_meets_monitor : forall marker maxz prev ptot os stored_before s,
+Theorem C06_model_meets_monitor : forall marker maxz minz fresh prev ptot os stored_before s,
   wf_prev prev = true -> registry_ok os = true -> ptot = sum_pow prev ->
-  model_obs marker maxz prev ptot os stored_before = Some s -> monitor_step s = true.
+  (fresh = true -> forallb (usd_consistent minz) os = true) ->
+  model_obs marker maxz minz fresh prev ptot os stored_before = Some s -> monitor_step s = true.
 Proof. exact model_meets_monitor. Qed.
 Print Assumptions C06_model_meets_monitor.
+
+(* T11b (wave 6): eligibility derived from the CONFIGURED minimum self delegation (active := total when self >= minimum,
+   else 0 — what the operator module's epoch hook does with the minimum it reads from the dogfood AVS record) coincides
+   with eligibility from the stored active values exactly when the stored values are consistent with that minimum; the
+   monitor therefore also compares the implementation with the target computed from the dogfood PARAMS in every block
+   whose USD records are as the hook left them, and requires AVS record minimum = params minimum in every block *)
+Theorem C06_eligibility_configured : forall minz os maxv,
+  forallb (usd_consistent minz) os = true ->
+  eligible_cfg minz os = eligible_opers os /\
+  target maxv (eligible_cfg minz os) = target maxv (eligible_opers os).
+Proof.
+  intros minz os maxv H. pose proof (eligible_cfg_consistent minz os H) as E. split; [exact E | rewrite E; reflexivity].
+Qed.
+Print Assumptions C06_eligibility_configured.
+
+(* and it is a real restriction: an operator whose stored active value ignores the configured minimum (the AVS record
+   lagging behind the params) is eligible by the stored value but not by the configuration *)
+Example ex_cfg_differs :
+  let o := mkOper "a1" (Some "kA") true true false true (150 * P) (150 * P) (150 * P) in
+  usd_consistent 200 o = false /\ eligible_opers [o] = [mkCand "a1" "kA" 150] /\ eligible_cfg 200 [o] = [] /\
+  eligible_cfg 150 [o] = [mkCand "a1" "kA" 150].
+Proof. vm_compute. repeat split; reflexivity. Qed.
 
 (* T9: the sort that stands for Go's sort.Slice is a sort *)
 Theorem C06_sort_by_power_correct : forall cs,
@@ -275,17 +298,18 @@ Proof. vm_compute. repeat split; reflexivity. Qed.
 
 
 Definition ex_opers : list oper :=
-  [mkOper "a1" (Some "kA") true true false true 200500000000000000000 200500000000000000000;
-   mkOper "a2" (Some "kB") true true true  true 150000000000000000000 150000000000000000000;  (* jailed *)
-   mkOper "a3" (Some "kC") true false false false 0 0;                                          (* opted out *)
-   mkOper "a4" None        false false false false 0 0;                                         (* never opted in *)
-   mkOper "a5" (Some "kE") true true false true 0 99000000000000000000;                         (* self below minimum *)
-   mkOper "a6" (Some "kF") true true false true 999999999999999999 999999999999999999].         (* below one unit *)
+  [mkOper "a1" (Some "kA") true true false true 200500000000000000000 200500000000000000000 200500000000000000000;
+   mkOper "a2" (Some "kB") true true true  true 150000000000000000000 150000000000000000000 150000000000000000000;  (* jailed *)
+   mkOper "a3" (Some "kC") true false false false 0 0 0;                                        (* opted out *)
+   mkOper "a4" None        false false false false 0 0 0;                                       (* never opted in *)
+   mkOper "a5" (Some "kE") true true false true 0 99000000000000000000 99000000000000000000;    (* self below minimum *)
+   mkOper "a6" (Some "kF") true true false true 0 999999999999999999 999999999999999999].  (* below one unit (and below the minimum) *)
 Example ex_registry :
   registry_ok ex_opers = true /\
   cands_of ex_opers = CandsOk [mkCand "a1" "kA" 200; mkCand "a5" "kE" 0; mkCand "a6" "kF" 0] /\
   eligible_opers ex_opers = [mkCand "a1" "kA" 200] /\
-  exists s, model_obs true 100 ex_prev 590 ex_opers [] = Some s /\
+  forallb (usd_consistent 100) ex_opers = true /\
+  exists s, model_obs true 100 100 true ex_prev 590 ex_opers [] = Some s /\
             s_upd s = [("kOld", 0); ("kC", 0); ("kB", 0)].
 Proof. vm_compute. repeat split; try reflexivity. eexists. split; reflexivity. Qed.
 
